@@ -199,7 +199,7 @@ h("cont.H_OptionalFault", map[string]int{"rounds": 3, "order_schemes": 1}, map[s
 	)
 	properties = append(properties,
 		propertySpec{ID: "C20", Harnesses: []harnessSpec{
-			h("cont.H_Modules", map[string]int{"order_schemes": 1}, map[string]int{"order_schemes": 2}, []string{"failed", "succeeded"}, 30, "six module-tree shapes (nesting depth 1..3, bare entries next to modules, nil entries at both levels, a list of exactly one possibly-nil entry, one module with exactly one possibly-nil entry, the empty list) over four entries whose kinds are symbolic {valid add, keyed add, rejected add (nil constructor), duplicate add, nil, Remove[T], RemoveKeyed[T]}; a twin collection receives the flattened direct calls; verdicts, ModuleError chain (names outermost first, once per enclosing module), reachability of the cause, queries, Build verdict, constructor invocations and resolution classes compared"),
+			h("cont.H_Modules", map[string]int{"order_schemes": 1}, map[string]int{"order_schemes": 2}, []string{"failed", "succeeded", "failed_on_options"}, 30, "(entry kinds since round 8 also: a registration rejected for its OPTIONS - Name together with Group - with and without a nil constructor; whatever the cause, errors.Is / errors.As classify the failure alike through the module wrappers and for the direct call) six module-tree shapes (nesting depth 1..3, bare entries next to modules, nil entries at both levels, a list of exactly one possibly-nil entry, one module with exactly one possibly-nil entry, the empty list) over four entries whose kinds are symbolic {valid add, keyed add, rejected add (nil constructor), duplicate add, nil, Remove[T], RemoveKeyed[T]}; a twin collection receives the flattened direct calls; verdicts, ModuleError chain (names outermost first, once per enclosing module), reachability of the cause, queries, Build verdict, constructor invocations and resolution classes compared"),
 		}},
 	)
 	webDesc := func(fw string) string {
